@@ -18,6 +18,14 @@ REPLICA_ASSUMPTIONS = [
 ]
 
 
+SERVICE_ASSUMPTIONS = [
+    "MongoDB is the in-memory wire-protocol stand-in memmongo (command semantics as implemented there); MQTT is the stand-in mqttstub",
+    "one request is handled at a time in these slices (the per-key lock is the subject of C12)",
+    "wall-clock fields (createdAt/updatedAt/at) are erased; consecutive requests are spaced by ≥2 ms",
+    "JSON numbers are integers exactly representable as float64",
+]
+
+
 def S(profile, quick, thorough, oracles_, **kw):
     return dict(profile=profile, quick=quick, thorough=thorough, oracles=oracles_, **kw)
 
@@ -38,6 +46,16 @@ PROPS = {
     "C15": dict(lean=["Orda.Props.C15"], rule="non-trivial: history with failing calls, rollbacks or remote deliveries between local operations; grid slice: every (lamport, delimiter) pair of the grid",
                 slices=[S("ids", 300, 5000, ["corr", "seq_gapless", "no_panic"]), S("hashgrid", 1, 4, ["corr", "hash_unique"])],
                 assumptions=REPLICA_ASSUMPTIONS),
+    "C06": dict(lean=["Orda.Props.C06"], rule="non-trivial: ≥2 clients pushed to the same datatype and at least one request was a re-push, an empty push or came after other clients' pushes; store dumped and checked after EVERY request; distinct command sequences",
+                slices=[S("svclog", 60, 900, ["corr", "loginv", "no_panic"]), S("mut", 60, 900, ["corr", "loginv", "refused_noop"])], assumptions=SERVICE_ASSUMPTIONS),
+    "C13": dict(lean=["Orda.Props.C13"], rule="non-trivial: a case exercises ≥2 entry modes on one key, or a refusal (create on existing / subscribe to missing / other type); distinct command sequences",
+                slices=[S("svc", 70, 1000, ["corr", "contract", "sconverge", "loginv"]), S("mut", 40, 600, ["corr", "contract", "refused_noop"])], assumptions=SERVICE_ASSUMPTIONS),
+    "C16": dict(lean=["Orda.Props.C16"], rule="non-trivial: the case contains ≥1 mutated request that was refused and ≥1 later accepted request of the same client; distinct command sequences",
+                slices=[S("mut", 90, 1500, ["corr", "refused_noop", "loginv"])], assumptions=SERVICE_ASSUMPTIONS),
+    "C17": dict(lean=["Orda.Props.C17"], rule="non-trivial: ≥2 collections hold datatypes under the same key and a request named a foreign collection or carried a foreign datatype id; distinct command sequences",
+                slices=[S("iso", 80, 1200, ["corr", "isolation", "loginv", "refused_noop"])], assumptions=SERVICE_ASSUMPTIONS),
+    "C18": dict(lean=["Orda.Props.C18"], rule="non-trivial: the case has both pushes that stored operations and pull-only syncs; every request framed by two store dumps is checked; distinct command sequences",
+                slices=[S("svc", 70, 1000, ["corr", "notify"]), S("fault", 40, 600, ["corr", "notify"])], assumptions=SERVICE_ASSUMPTIONS),
 }
 
 
@@ -62,6 +80,17 @@ def nontrivial(pid, case):
         return any(ln.get("k") == "tx" and ln.get("obs", {}).get("err") for ln, _ in case) or any(ln.get("mut") for ln, _ in case)
     if pid == "C10":
         return "snap" in ks and ks.index("snap") < len(ks) - 4
+    if hdr.get("k") == "scase":
+        syncs = [ln for ln, _ in case if ln.get("k") == "sync"]
+        pushers = set(ln.get("c") for ln in syncs if any((p or {}).get("ops") for p in ln.get("obs", {}).get("req", []) or []))
+        refused = [ln for ln in syncs if ln.get("obs", {}).get("rpc") or any(((p or {}).get("opt", 0) & 32) for p in (ln.get("obs", {}).get("resp") or []))]
+        if pid in ("C16",):
+            return bool(refused) and len(syncs) > len(refused)
+        if pid == "C17":
+            return len([ln for ln, _ in case if ln.get("k") == "mkcol"]) >= 2 and bool(syncs)
+        if pid == "C18":
+            return any(ln.get("obs", {}).get("notifs") for ln in syncs) and any(not ln.get("obs", {}).get("notifs") for ln in syncs)
+        return len(pushers) >= 2
     if hdr.get("k") != "case":
         return True
     return remote > 0 and oks > 1
